@@ -69,6 +69,9 @@ type FS struct {
 	// on a real device does: windows that exist only while a flush is in progress become reachable.
 	SyncDelay time.Duration
 	syncCount int64
+	// ReadDelay makes every sequential Read take this long (a slow device: recovery of a large
+	// database lasts a while).
+	ReadDelay time.Duration
 }
 
 // New returns an empty file system.
@@ -639,6 +642,9 @@ func (f *file) ReadAt(p []byte, off int64) (int, error) {
 }
 
 func (f *file) Read(p []byte) (int, error) {
+	if d := f.t.ReadDelay; d > 0 {
+		time.Sleep(d)
+	}
 	f.t.mu.Lock()
 	defer f.t.mu.Unlock()
 	if f.closed {
